@@ -58,8 +58,12 @@ func VerifC09LegacyConc(c map[string]any) any {
 		mu.Unlock()
 	}
 	// pass blocks at a gate (if the key is gated) and returns the status to answer with (0 = the client went away)
+	committed := map[string]bool{} // digests the registry has accepted: a later HEAD finds them
 	pass := func(r *http.Request, key string, def int) int {
-		if !gated[key] {
+		mu.Lock()
+		isGated := gated[key]
+		mu.Unlock()
+		if !isGated {
 			return def
 		}
 		g := &gate{key: key, status: make(chan int, 1)}
@@ -71,6 +75,15 @@ func VerifC09LegacyConc(c map[string]any) any {
 		case st := <-g.status:
 			return st
 		case <-r.Context().Done():
+			// the client went away: the gate must not swallow a later release meant for a live request
+			mu.Lock()
+			for i, x := range waiting[key] {
+				if x == g {
+					waiting[key] = append(waiting[key][:i:i], waiting[key][i+1:]...)
+					break
+				}
+			}
+			mu.Unlock()
 			return 0
 		case <-time.After(20 * time.Second):
 			return def
@@ -92,6 +105,11 @@ func VerifC09LegacyConc(c map[string]any) any {
 			if v, ok := head[lh].(float64); ok {
 				st = int(v)
 			}
+			mu.Lock()
+			if committed[lh] {
+				st = 200
+			}
+			mu.Unlock()
 			addLog(fmt.Sprintf("head %s %s %d", model, lh, st))
 			w.WriteHeader(st)
 		case r.Method == "POST" && strings.HasSuffix(p, "/blobs/uploads/"):
@@ -127,7 +145,12 @@ func VerifC09LegacyConc(c map[string]any) any {
 				addLog("commit " + lh + " gone")
 				return
 			}
-			addLog(fmt.Sprintf("commit %s %d", lh, st))
+			mu.Lock()
+			if st/100 == 2 {
+				committed[lh] = true
+			}
+			log = append(log, fmt.Sprintf("commit %s %d", lh, st))
+			mu.Unlock()
 			w.WriteHeader(st)
 		case r.Method == "PUT" && strings.Contains(p, "/manifests/"):
 			addLog(fmt.Sprintf("manifest-put %s 200", model))
@@ -253,6 +276,19 @@ func VerifC09LegacyConc(c map[string]any) any {
 			} else {
 				addLog("nothing to release " + key)
 			}
+		case "open":
+			// the scripted part is over: every gate opens (requests that are held or still to come get their default answer)
+			mu.Lock()
+			for k := range gated {
+				delete(gated, k)
+			}
+			for k, gs := range waiting {
+				for _, g := range gs {
+					g.status <- 201
+				}
+				delete(waiting, k)
+			}
+			mu.Unlock()
 		case "join":
 			i := int(s[1].(float64))
 			select {
